@@ -202,6 +202,8 @@ def mon_c07(sc, controller):
     dem = demanded_and_sources(sc, controller)
     begins = [(idx, sid_i(e[1]), tuple(e[2]), e[4]) for idx, e in enumerate(controller.full_trace) if e[0] == "begin"]
     for (idx, p, t, m) in begins:
+        if m is None:
+            continue        # a simulator of an older API version is not told max_advance
         if m > until:
             vio.append({"law": "max_advance exceeds until", "sim": p, "t": t, "max_advance": m})
         if not has_trig_in[p] and m != until:
